@@ -65,18 +65,21 @@ func isPointerish(t types.Type) bool {
 func (vc *VC) fieldKey(structT types.Type, i int) string {
 	st := structT.Underlying().(*types.Struct)
 	key := fmt.Sprintf("F|%s|%d", vc.sorts().structKey(structT), i)
+	vc.noteKeyObj(key, types.NewPointer(structT), "")
 	vc.regHeap(key, "(Array (_ BitVec 64) "+vc.sorts().sortOf(st.Field(i).Type())+")", st.Field(i).Type())
 	return key
 }
 
 func (vc *VC) boxKey(t types.Type) string {
 	key := "B|" + typeKey(t)
+	vc.noteKeyObj(key, types.NewPointer(t), "")
 	vc.regHeap(key, "(Array (_ BitVec 64) "+vc.sorts().sortOf(t)+")", t)
 	return key
 }
 
 func (vc *VC) elemKey(t types.Type) string {
 	key := "E|" + typeKey(t)
+	vc.noteKeyObj(key, nil, "array:"+typeKey(t))
 	vc.regHeap(key, "(Array (_ BitVec 64) (Array (_ BitVec 64) "+vc.sorts().sortOf(t)+"))", t)
 	return key
 }
@@ -1162,4 +1165,51 @@ func (vc *VC) mapKeyTerm(m *types.Map, key string) string {
 func isBasicType(t types.Type) bool {
 	_, ok := t.Underlying().(*types.Basic)
 	return ok
+}
+
+// The objects of a heap array have one type: the tag of the pointer type (or a
+// pseudo tag for backing arrays). Frames list objects as interface values
+// (tag, reference); an entry exempts a cell only of a heap array of its type,
+// so that equal reference numbers of differently typed objects do not alias.
+func (vc *VC) noteKeyObj(key string, ptrT types.Type, pseudo string) {
+	if vc.keyTags == nil {
+		vc.keyTags = map[string]string{}
+	}
+	if _, ok := vc.keyTags[key]; ok {
+		return
+	}
+	if ptrT != nil {
+		vc.keyTags[key] = bvConst(uint64(vc.eng.typeTag(ptrT)), 32)
+	} else {
+		vc.keyTags[key] = bvConst(uint64(vc.eng.pseudoTag(pseudo)), 32)
+	}
+}
+
+// exemptRef / exemptIs: an exempt entry is "ref" or "ref\x01tag".
+func exemptRef(e string) string {
+	if i := strings.IndexByte(e, 1); i >= 0 {
+		return e[:i]
+	}
+	return e
+}
+
+func (vc *VC) exemptIs(key, ref, e string) string {
+	i := strings.IndexByte(e, 1)
+	if i < 0 {
+		return fmt.Sprintf("(= %s %s)", ref, e)
+	}
+	kt, ok := vc.keyTags[key]
+	if !ok {
+		return fmt.Sprintf("(= %s %s)", ref, e[:i])
+	}
+	if strings.HasPrefix(e[i+1:], "#") {
+		// statically known tags: the entry applies to this heap array or it does not
+		for _, t := range strings.Split(e[i+2:], ",") {
+			if t != "" && kt == "(_ bv"+t+" 32)" {
+				return fmt.Sprintf("(= %s %s)", ref, e[:i])
+			}
+		}
+		return "false"
+	}
+	return fmt.Sprintf("(and (= %s %s) (= %s %s))", ref, e[:i], e[i+1:], kt)
 }
